@@ -31,7 +31,14 @@ Program(dir, enc, recv, iface, cases) == [dir |-> dir, enc |-> enc, recv |-> rec
 
 SingleProgs == {Program(d, e, r, TRUE, <<x>>) : d \in Dirs, e \in Encs, r \in Recvs, x \in Singles}
 PairProgs == {Program(d, e, "value", TRUE, <<p[1], p[2]>>) : d \in Dirs, e \in {"Text"}, p \in Pairs}
-Other == {Program(d, e, r, FALSE, <<x>>) : d \in Dirs, e \in Encs, r \in Recvs, x \in Small}
+\* pairs in the other two encodings over a tiny alphabet (the three helper files are separate code)
+Tiny == {Case(c, "nil", "nil", beh, exp) : c \in {"both", "marshal"}, beh \in {"right", "wrong", "error"}, exp \in {"none", "any", "eq"}}
+        \cup {Case("both", "err", "nil", "right", "none"), Case("unmarshal", "nil", "nil", "error", "any"), Case("both", "nil", "panic", "right", "none")}
+TinyPairs == {Program(d, e, r, TRUE, <<x, y>>) : d \in Dirs, e \in {"Binary", "JSON"}, r \in {"value"}, x \in Tiny, y \in Tiny}
+\* a VALUE type whose Marshal* methods have pointer receivers does not implement the marshaler
+\* interface: recv "ptrmeth" (marshal direction only), so the specification sees iface = FALSE
+PtrMeth == {Program("marshal", e, "ptrmeth", FALSE, <<x>>) : e \in Encs, x \in Small}
+Other == {Program(d, e, r, FALSE, <<x>>) : d \in Dirs, e \in Encs, r \in Recvs, x \in Small} \cup TinyPairs \cup PtrMeth
          \cup {Program(d, e, r, i, <<>>) : d \in Dirs, e \in Encs, r \in Recvs, i \in BOOLEAN}
          \cup {Program(d, e, "value", TRUE, <<x, y, z>>) : d \in Dirs, e \in {"Text"},
                  x \in {Case("marshal", "nil", "nil", "error", "none"), Case("unmarshal", "nil", "nil", "error", "none")},
